@@ -2,6 +2,7 @@ package props
 
 import (
 	"fmt"
+	"math"
 	"time"
 
 	"verif/harness/bridge"
@@ -238,6 +239,161 @@ func deepMismatchCases() []*ProgCase {
 				out = append(out, &ProgCase{ID: fmt.Sprintf("deep-mismatch/%d/%d/%d", d, style, pi), Src: ref.Render(e), E: e, Env: env})
 			}
 		}
+	}
+	return out
+}
+
+// dynCallBranchCases: a dynamically dispatched call with n arguments inside
+// the selected branch of a conditional, the branch padded so that its end
+// offset sweeps a range: operand bytes (argument counts) take the value of
+// every opcode while every small branch length occurs next to them.
+func dynCallBranchCases(thorough bool) []*ProgCase {
+	var out []*ProgCase
+	argcs := []int{}
+	for n := 40; n <= 70; n++ {
+		argcs = append(argcs, n)
+	}
+	pads := 130
+	if thorough {
+		argcs = argcs[:0]
+		for n := 1; n <= 120; n++ {
+			argcs = append(argcs, n)
+		}
+		pads = 200
+	}
+	for _, n := range argcs {
+		ps := make([]*ref.Ty, n)
+		for i := range ps {
+			ps[i] = ref.TNum
+		}
+		fT := ref.TFun(ps, ref.TNum)
+		fn := &ref.Fun{Name: "f", Params: ps, Ret: ref.TNum, Impl: func(_ *ref.Evaluator, _ *ref.Ty, x []ref.Arg) *ref.V {
+			s := 0.0
+			for _, a := range x {
+				s += a.V.N
+			}
+			return ref.VNum(s)
+		}}
+		env := bridge.NewEnv()
+		env.Put("b", ref.VBool(true))
+		env.Put("f", &ref.V{T: fT, Fn: fn})
+		for k := 0; k <= pads; k++ {
+			first := ref.Num("0", 0)
+			for i := 0; i < k; i++ {
+				first = ref.CallF(ref.FInfix, "+", first, ref.Num("0", 0))
+			}
+			args := []*ref.E{first}
+			for i := 1; i < n; i++ {
+				args = append(args, ref.Num("1", 1))
+			}
+			call := ref.DynCall(ref.Subscript(ref.List(ref.Ident("f")), ref.Num("0", 0)), args...)
+			var e *ref.E
+			switch (n + k) % 3 {
+			case 0:
+				e = ref.Call("if", ref.Ident("b"), ref.CallF(ref.FInfix, "+", call, ref.Num("1", 1)), ref.Num("0", 0))
+			case 1:
+				e = ref.CallF(ref.FTernary, "if", ref.Ident("b"), ref.CallF(ref.FInfix, "+", call, ref.Num("1", 1)), ref.Num("0", 0))
+			default:
+				e = ref.CallF(ref.FInfix, "&&", ref.Ident("b"), ref.CallF(ref.FInfix, ">", ref.CallF(ref.FInfix, "+", call, ref.Num("1", 1)), ref.Num("0", 0)))
+			}
+			out = append(out, &ProgCase{ID: fmt.Sprintf("dyn-branch/%d/%d", n, k), Src: fmt.Sprintf("<dynamic call with %d arguments in a branch padded by %d additions>", n, k), E: e, Env: env, AsAST: true,
+				Back: []bridge.Backend{bridge.VM, bridge.Closure}})
+		}
+	}
+	return out
+}
+
+// fullStackCallCases: a host call or a dynamic call made while exactly n
+// operands are live, for n around every size at which the VM's stack is full.
+func fullStackCallCases() []*ProgCase {
+	var out []*ProgCase
+	user := ref.UserFuns()
+	env := bridge.NewEnv()
+	env.Put("n", ref.VNum(3))
+	fT := ref.TFun([]*ref.Ty{ref.TNum}, ref.TNum)
+	env.Put("f", &ref.V{T: fT, Fn: &ref.Fun{Name: "f", Params: []*ref.Ty{ref.TNum}, Ret: ref.TNum, Impl: func(_ *ref.Evaluator, _ *ref.Ty, x []ref.Arg) *ref.V {
+		return ref.VNum(x[0].V.N + 0.5)
+	}}})
+	for _, n := range []int{20, 21, 40, 41, 42, 43, 44, 540, 541, 542, 543, 544, 1040, 1041, 1042, 1043, 1044} {
+		calls := []func() *ref.E{
+			func() *ref.E { return tr("t", ref.Num("7", 7)) },
+			func() *ref.E { return ref.Call("fst", ref.Ident("n"), ref.Num("1", 1)) },
+			func() *ref.E {
+				return ref.DynCall(ref.Subscript(ref.List(ref.Ident("f")), ref.Num("0", 0)), ref.Ident("n"))
+			},
+			func() *ref.E { return ref.Call("lzIf", ref.Bool(true), ref.Ident("n"), ref.Num("0", 0)) },
+			func() *ref.E { return ref.Call("wrap", ref.Ident("n")) },
+		}
+		for ci, mk := range calls {
+			for _, pos := range []int{n - 1, n - 2, 0, n / 2} {
+				pos := pos
+				el := func(i int) *ref.E {
+					if i == pos {
+						if ci == 4 {
+							return ref.Call("len", mk())
+						}
+						return mk()
+					}
+					return numLit(i % 9)
+				}
+				e := ref.Call("len", wideList(n, el))
+				out = append(out, &ProgCase{ID: fmt.Sprintf("full-stack/%d/%d/%d", n, ci, pos), Src: ref.Render(e), E: e, Env: env, User: user})
+				ks, vs := make([]*ref.E, n/2), make([]*ref.E, n/2)
+				for i := range ks {
+					ks[i], vs[i] = numLit(i), numLit(i)
+					if 2*i+1 == pos || 2*i == pos {
+						vs[i] = el(pos)
+					}
+				}
+				if n <= 600 {
+					e2 := ref.Call("len", ref.Map(ks, vs))
+					out = append(out, &ProgCase{ID: fmt.Sprintf("full-stack-map/%d/%d/%d", n, ci, pos), Src: ref.Render(e2), E: e2, Env: env, User: user})
+				}
+			}
+		}
+	}
+	return out
+}
+
+// signedZeroCases: results whose only difference is the sign of zero, made
+// visible by a division.
+func signedZeroCases() []*ProgCase {
+	var out []*ProgCase
+	env := bridge.NewEnv()
+	env.Put("pz", ref.VNum(0))
+	env.Put("nz", ref.VNum(math.Copysign(0, -1)))
+	zs := map[string]func() *ref.E{
+		"pz": func() *ref.E { return ref.Ident("pz") }, "nz": func() *ref.E { return ref.Ident("nz") },
+		"0": func() *ref.E { return ref.Num("0", 0) }, "-0": func() *ref.E { return ref.CallF(ref.FPrefix, "-", ref.Num("0", 0)) },
+	}
+	names := []string{"pz", "nz", "0", "-0"}
+	k := 0
+	add := func(e *ref.E) {
+		k++
+		out = append(out, &ProgCase{ID: fmt.Sprintf("signed-zero/%d", k), Src: ref.Render(e), E: e, Env: env})
+	}
+	one := func() *ref.E { return ref.Num("1", 1) }
+	for _, x := range names {
+		for _, y := range names {
+			X, Y := zs[x], zs[y]
+			for _, f := range []string{"max", "min"} {
+				add(ref.CallF(ref.FInfix, "/", one(), ref.Call(f, X(), Y())))
+				add(ref.CallF(ref.FInfix, "/", one(), ref.Call(f, ref.List(X(), Y()))))
+				add(ref.Call(f, X(), Y()))
+			}
+			for _, op := range []string{"+", "-", "*"} {
+				add(ref.CallF(ref.FInfix, "/", one(), ref.Group(ref.CallF(ref.FInfix, op, X(), Y()))))
+			}
+			add(ref.CallF(ref.FInfix, "/", one(), ref.Call("if", ref.CallF(ref.FInfix, "==", X(), Y()), X(), Y())))
+			add(ref.CallF(ref.FInfix, "/", one(), ref.Subscript(ref.Call("union", ref.List(X()), ref.List(Y())), ref.Num("0", 0))))
+		}
+		X := zs[x]
+		for _, f := range []string{"abs", "round", "floor", "ceil"} {
+			add(ref.CallF(ref.FInfix, "/", one(), ref.Call(f, X())))
+		}
+		add(ref.CallF(ref.FInfix, "/", one(), ref.CallF(ref.FPrefix, "-", X())))
+		add(ref.CallF(ref.FInfix, "^", X(), ref.CallF(ref.FPrefix, "-", one())))
+		add(ref.Call("string", X()))
 	}
 	return out
 }
